@@ -1,9 +1,11 @@
 /* C12: one inductive step of the insertable sorted set from ANY state satisfying the representation invariant
-   (keys strictly ascending, _sz <= _rsz, _arr a heap array whose _rsz-th element is the last one of its allocation, or null
+   (keys strictly ascending, _sz <= _rsz, _rsz >= 1, _arr a heap array whose _rsz-th element is the last one of its allocation, or null
    when the allocation is still deferred and the set is empty):  insert(k) / find variants / clear() behave as on a sorted set of
    unique keys, keep the invariant, stay inside their allocations, and insert's iterator points at the inserted element.
    SET 0: generic presorted_set<unsigned short, Elem, ElemLess>      SET 1: the FieldTrait specialisation (Presence), no hash array
    OP 0 insert   1 lookups   2 clear   3 insert(range of 2)
+   OP 4 base case: the real constructors (from a sorted array of sz <= NS elements with a reserve percentage; empty with a
+        reserve count) establish the invariant
    operator new[] / delete[] are provided here: an allocation of c elements (c <= 2*NS, chosen by case split so that every
    heap object has a constant size) never fails; delete[] frees. */
 #include "vf_h.h"
@@ -46,9 +48,9 @@ uint16_t cx_k[NS], cx_key, cx_key2; uint64_t cx_sz, cx_rsz, cx_reserve; int32_t 
 int main(void)
 {
   uint64_t sz = nondet_u64(), rsz = nondet_u64(), reserve = nondet_u64(); int isnull = nondet_bool();
-  VF_ASSUME(sz <= NS && sz <= rsz && rsz <= NS && reserve <= 100);
-#ifdef KF_SET_RESERVE0
-  VF_ASSUME(rsz >= 1);                 /* finding: an empty set with zero reserve writes its first element into a zero-length array */
+  VF_ASSUME(sz <= NS && sz <= rsz && rsz >= 1 && rsz <= NS && reserve <= 100);
+#if OP == 4 && defined(KF_SET_RESERVE0)
+  VF_ASSUME(reserve >= 1);             /* finding: a set constructed empty with reserve 0 has reserved size 0; its first insert writes into a zero-length array */
 #endif
   VF_ASSUME(!isnull || sz == 0);
   ELT *buf = 0;
@@ -57,15 +59,40 @@ int main(void)
   for (int i = 0; i < NS; i++) { k[i] = nondet_u16(); pay[i] = nondet_u16(); cx_k[i] = k[i]; if (i > 0 && (uint64_t)i < sz) VF_ASSUME(k[i - 1] < k[i]); }
   for (int i = 0; i < NS; i++) if ((uint64_t)i < sz) { KEY(buf[i]) = k[i]; PAY(buf[i]) = pay[i]; }
   cx_sz = sz; cx_rsz = rsz; cx_reserve = reserve; cx_null = isnull; cx_op = OP; cx_set = SET;
+#if OP == 4
+  /* base case: buf (sz sorted elements) is the source table; mode 0: from array, mode 1: empty with a reserve count */
+  int empty = nondet_bool(); cx_null = empty;
+  VF_ASSUME(!isnull);
+  if (empty) { sz = 0; cx_sz = 0; VF_ASSUME(reserve <= NS); }
+#if SET == 0
+  if (empty) vf_gs_ctor_empty(&the_set, reserve); else vf_gs_ctor_arr(&the_set, buf, sz, reserve);
+#else
+  if (empty) vf_ps_ctor_empty(&the_set, reserve); else vf_ps_ctor_arr(&the_set, buf, sz, reserve);
+#endif
+  {
+    ELT *a = F(arr)(&the_set); uint64_t s2 = F(sz)(&the_set), r2 = F(rsz)(&the_set);
+    VF_ASSERT(!bad_new, "C12: the constructor asks for at most twice the size");
+    VF_ASSERT(s2 == sz && s2 <= r2, "C12: a constructed set has its size within the reserved size");
+    VF_ASSERT(r2 >= 1, "C12: a constructed set has room for at least one element");
+    if (empty) VF_ASSERT(a == 0, "C12: the empty constructor defers the allocation");
+    else {
+      VF_ASSERT(a == (ELT*)last_new && a != buf && r2 * sizeof(ELT) == last_new_bytes, "C12: the array has exactly the reserved number of elements");
+      for (int i = 0; i < NS; i++) if ((uint64_t)i < sz) VF_ASSERT(KEY(a[i]) == k[i] && PAY(a[i]) == pay[i], "C12: the constructor copies the sorted table");
+    }
+    if (empty) VF_REACH(); else VF_REACH();
+  }
+#else
 #if SET == 0
   vf_gs_setup(&the_set, buf, sz, rsz, reserve);
 #else
   vf_ps_setup(&the_set, buf, sz, rsz, reserve, 0);
 #endif
+#endif
   uint16_t key = nondet_u16(); cx_key = key;
   int present = 0; uint64_t idx = 0, pos = 0;
   for (int i = 0; i < NS; i++) if ((uint64_t)i < sz) { if (k[i] == key) { present = 1; idx = i; } if (k[i] < key) pos++; }
-#if OP == 0
+#if OP == 4
+#elif OP == 0
   static ELT what; KEY(what) = key; PAY(what) = nondet_u16(); uint16_t wpay = PAY(what);
   uint8_t ins = 2;
   ELT *ret = F(insert)(&the_set, &what, &ins);
